@@ -9,6 +9,8 @@ CLAIMED={
 }
 CLAIMED["C09"]=("checks-before-effects on every entry point whose failure is reported but not reverted (precompile `false` returns; logged-and-skipped calls in block processing) via an origin-keyed interprocedural write-before-failure analysis; cache-context discipline d1-d4 at every CacheContext() site; deferred writes guarded by the error result",
   "interprocedural write-before-failure analysis over type-checked AST + store effect summaries; cache-context typestate rules", "4/C09")
+CLAIMED["C04"]=("one capped proportion (power x factor / current value incl. unbonding) multiplies every pool and every at-risk undelegation; truncation, original-amount base and clamp; `<` skip class of the height filter and no other use of it; write effects confined to pools/undelegations/share-zeroing; recorded = subtracted; duplicate-ID check before commit; parameter guards dominate",
+  "dataflow-shape and comparison-class rules over type-checked AST; store effect summaries; cache-context typestate", "4/C04")
 NA={}
 def main():
     checks=[]
